@@ -172,6 +172,16 @@ def history(ctx, i):
     if not ints:
         return
     rename_consumers_fix(spec)
+    for nm in ints:
+        # the interrupt also emits a signal that a later node only WAITS for (no data dependency): a resumed interrupt
+        # must announce itself exactly like one whose handler answered
+        if rng.random() < 0.4:
+            ns = next(x for x in spec["nodes"] if x["name"] == nm)
+            ns.setdefault("emit", [f"ie_{nm}"])
+            aux = f"aux_{nm}"
+            spec["inputs"] = list(spec.get("inputs", [])) + [aux]
+            spec["nodes"].append({"k": "fn", "name": f"after_{nm}", "params": [{"n": aux}], "outs": [f"seen_{nm}"], "wait": [ns["emit"][0]]})
+            ctx.obs["signal_only_dependants"] += 1
     bind, _ = gen.assign_sources(rng, spec)
     spec["bind"] = {k: v for k, v in bind.items()}
     req, opt = ref.ref_inputs(spec)
